@@ -79,6 +79,7 @@ func impl(c core.Case) []string {
 
 func implInner(c core.Case, put func(i int, s string)) []string {
 	var rb setz.RoaringBitmap
+	var hs handles
 	i := 0
 	rec := func(s string) string {
 		put(i, s)
@@ -92,13 +93,29 @@ func implInner(c core.Case, put func(i int, s string)) []string {
 			}
 			return rec("ok")
 		},
-		func(t []string) string { return rec(step(&rb, t)) })
+		func(t []string) string { return rec(step(&rb, &hs, t)) })
 }
 
-func step(rb *setz.RoaringBitmap, t []string) string {
+func step(rb *setz.RoaringBitmap, hs *handles, t []string) string {
 	if len(t) == 0 {
 		return "bad-op"
 	}
+	if isMutation(t[0]) {
+		// a RoaringBitmapIter is only valid while the bitmap is not mutated: every
+		// well-formed add / rm / fill / drain line empties the Iter slots
+		o := stepPlain(rb, t)
+		if o != "bad-op" {
+			hs.dropIters()
+		}
+		return o
+	}
+	if isHandleOp(t[0]) {
+		return hs.step(rb, t)
+	}
+	return stepPlain(rb, t)
+}
+
+func stepPlain(rb *setz.RoaringBitmap, t []string) string {
 	switch t[0] {
 	case "add", "rm", "has":
 		if len(t) != 2 {
@@ -209,6 +226,7 @@ func step(rb *setz.RoaringBitmap, t []string) string {
 // without the Lean model.
 func check(c core.Case, out []string) *core.Failure {
 	ref := newRef()
+	hs := newRefHandles()
 	fail := func(i int, key, want string) *core.Failure {
 		return &core.Failure{Key: key, Desc: fmt.Sprintf("op %d %q: implementation answered %q, a set of uint32 with %d members answers %q", i, c.Lines[i], out[i], ref.size(), want)}
 	}
@@ -223,6 +241,15 @@ func check(c core.Case, out []string) *core.Failure {
 			return &core.Failure{Key: "hang", Desc: fmt.Sprintf("op %d %q did not return within %s (non-termination); ops before it answered normally", i, c.Lines[i], opTimeout())}
 		case "not-run-after-hang":
 			return &core.Failure{Key: "hang", Desc: "an earlier case of this run did not return; this case was not executed"}
+		}
+		if isMutation(t[0]) {
+			hs.dropIters()
+		}
+		if isHandleOp(t[0]) {
+			if f := hs.check(i, c, out, ref); f != nil {
+				return f
+			}
+			continue
 		}
 		switch t[0] {
 		case "add":
